@@ -12,7 +12,7 @@ from vpkit.strats import single_spec
 PROPERTY = "C03"
 LEVEL = "exploration"
 RULE = (
-    "cases = plain-JSON loss specs: kind in {ODE, stationary, non-stationary}, analytic network (1..3 outputs, optional "
+    "cases = plain-JSON loss specs: kind in {ODE, stationary, non-stationary}, analytic-field network or real one-hidden-layer MLP from create_PINN (1..3 outputs, optional "
     "parameter-dependent output transform), user equation = random linear map (1..3 components) of features "
     "[u_0, d u_0/d(last coord), first coord, u_0*p_0, u_last^2, 1, all equation parameters], batch of 1..9 explicit "
     "points, scalar or per-component weight, random subset of the other terms (initial condition, boundary, "
